@@ -148,7 +148,7 @@ def run_atoms(ctx, atoms, lang, pack=None):
     nt = nontrivial(src)
     ctx.stats.case(key=(src, lang), nontrivial=nt,
                    classes=('special-half',) + (('adjacent-sequences',) if nt else ()),
-                   sample={'src': src, 'lang': lang} if ctx.stats.evaluations % 997 == 5 else None)
+                   sample={'src': src, 'lang': lang})
 
 
 def run_shard(ctx):
@@ -207,6 +207,6 @@ def run_shard(ctx):
                             {'plain': plain, 'map': list(cmap), 'stderr': err})
         nt = any(ord(c) > 127 or (c.isspace() and c not in ' \n') for c in s)
         ctx.stats.case(key=(s, lang), nontrivial=nt, classes=('fixed-point-half',),
-                       sample={'src': s, 'lang': lang} if nt and len(s) > 5 and ctx.stats.evaluations % 50 == 0 else None)
+                       sample={'src': s, 'lang': lang})
 
     hyp_run(ctx, st.tuples(txt, st.sampled_from(LANGS)), fp, ctx.n(8000, 200000))
